@@ -31,6 +31,52 @@ CHECKS["C01"] = dict(
          "hypothesis: handlers returning non-dataclass values; connection writes that fail.",
     design="4/C01")
 
+DISPATCH_NOTE = ("Trusted: Coq kernel + VM, translator, the hand model of charge_point.py/messages.py control flow (tied by the "
+                 "dispatch correspondence in this property's own observables), CPython json/inspect/dataclasses.")
+CHECKS["C05"] = dict(
+    technique="Rocq theorems (Dispatch model + sound/complete Draft-04 evaluator) + dispatch/verdict correspondence",
+    text="C05_handler_guard: a handler invocation implies the route opted out or the payload is declaratively valid "
+         "(inductive Draft-04 reading, proved equivalent to the evaluator) against the request schema of that version and "
+         "action; C05_violation_answered: otherwise the single event is a CALLERROR whose code is code_of a violated kind; "
+         "C05_code_table. Tied by single-constraint-violating CALLs and handler results on real endpoints.",
+    note=DISPATCH_NOTE + " jsonschema's choice among several errors is left nondeterministic (membership).", design="4/C05")
+CHECKS["C07"] = dict(
+    technique="Rocq theorem (complete shape of handle_call) + dispatch correspondence with recording handlers",
+    text="C07_contract: for every CALL either nothing is invoked, or exactly the handler of that action runs first with the "
+         "snake_case payload and call_unique_id iff declared, no other handler runs, and the after-hook runs at most once, "
+         "with the same keywords, directly after the CALLRESULT. Tied by handlers of every shape on real endpoints, "
+         "including failing reply writes and reused handler names.",
+    note=DISPATCH_NOTE, design="4/C07")
+CHECKS["C16"] = dict(
+    technique="Rocq theorems (non-interference of other routes; unchanged delivery) + dispatch/history correspondence",
+    text="C16_route_scope: configurations agreeing on the action's route process a CALL identically; C16_unchanged: with "
+         "validation skipped every payload is delivered and every result written unchanged. Tied by skipping and "
+         "validating routes side by side, invalid payloads on both, and (history view) calls of actions whose route skips.",
+    note=DISPATCH_NOTE, design="4/C16")
+CHECKS["C17"] = dict(
+    technique="Rocq theorems over the regenerated Action lists + dispatch correspondence (all action names of both versions)",
+    text="C17_classify / C17_code: with no route for the action (any JSON value) the only event is one CALLERROR, "
+         "NotImplemented iff the action is a string in the version's Action list (regenerated from the tree), else "
+         "NotSupported, independent of payload and other routes.",
+    note=DISPATCH_NOTE, design="4/C17")
+HISTORY_NOTE = ("Trusted: Coq kernel + VM, translator, the hand model of call()/_get_specific_response()/asyncio.Lock/Queue/"
+                "wait_for as a FIFO gate, FIFO queue and exact timers (tied by the history correspondence under a virtual "
+                "clock; worker-thread validation runs inline there). Partial: liveness and the wall-clock/loop-clock split.")
+CHECKS["C02"] = dict(
+    technique="Rocq invariant proved by induction over every operation sequence (Endpoint model) + history correspondence",
+    text="Inv_run: for every finite sequence of caller starts, inbound frames, clock advances, cancellations and failing "
+         "writes: a reply is delivered only to the caller whose id it carries (Python ==), only if it arrived; result/None/"
+         "error outcomes come only from such a delivery; a timeout is raised exactly response_timeout after the CALL was "
+         "written. Tied by running the same histories on real call() tasks under a virtual clock.",
+    note=HISTORY_NOTE, design="4/C02")
+CHECKS["C03"] = dict(
+    technique="Rocq invariant (gate protocol read off the log) by induction over every operation sequence + history correspondence",
+    text="C03_gate_protocol / C03_mutex: in every reachable state the log obeys the gate protocol, so between two CALL "
+         "writes lies the release of the first request (reply, timeout, cancellation; failed writes never count); the gate is "
+         "held only by the one caller waiting for a reply; inbound CALL processing does not read the gate. Tied by histories "
+         "with write failures, cancellations and an epilogue request that must be written and answered.",
+    note=HISTORY_NOTE, design="4/C03")
+
 PENDING_REASON = "check not built yet in this round (work in progress; see DESIGN.md section 9)"
 
 
